@@ -577,6 +577,33 @@ mod engine {
                     unreached.push(k.name);
                 }
             }
+            // the soundness assumption of run-to-completion tasks: library tasks share no mutable state
+            let audit = std::process::Command::new("grep")
+                .args([
+                    "-rnE",
+                    "Atomic(Bool|Usize|U64|I64|U32|Ptr)|Mutex|RwLock|RefCell|[^a-zA-Z]Cell<|OnceCell|OnceLock|lazy_static|static mut |thread_local!|UnsafeCell",
+                    "--include=*.rs",
+                    "/repo/ff/src",
+                    "/repo/ec/src",
+                    "/repo/poly/src",
+                    "/repo/serialize/src",
+                    "/repo/test-curves/src",
+                    "/repo/curves",
+                ])
+                .output();
+            let hits: Vec<String> = match audit {
+                Ok(o) => String::from_utf8_lossy(&o.stdout)
+                    .lines()
+                    .filter(|l| !l.split(':').nth(2).map(|c| c.trim_start().starts_with("//")).unwrap_or(false))
+                    .take(20)
+                    .map(|l| l.to_string())
+                    .collect(),
+                Err(_) => vec!["(grep unavailable)".into()],
+            };
+            if !hits.is_empty() {
+                println!("WARNING shared-mutable-state audit: {} hit(s) in library sources; the run-to-completion equivalence argument must be re-examined: {:?}", hits.len(), &hits[..hits.len().min(3)]);
+            }
+            extras.insert("shared_mutable_state_audit".into(), json!({"pattern": "Atomic*|Mutex|RwLock|RefCell|Cell<|OnceCell|OnceLock|lazy_static|static mut|thread_local!|UnsafeCell", "hits_in_library_sources": hits}));
             extras.insert("operation_kinds".into(), Value::Object(reach));
             extras.insert("kinds_whose_parallel_branch_never_forked".into(), json!(unreached));
             extras.insert(
